@@ -153,6 +153,8 @@ def is_const_expr(e: ast.AST, depth: int = 0) -> bool:
             return is_const_expr(e.args[0], depth + 1)
         if isinstance(f, ast.Attribute) and f.attr == "MappingProxyType" and len(e.args) == 1:
             return is_const_expr(e.args[0], depth + 1)
+        if isinstance(f, ast.Name) and f.id == "partial" and e.args and isinstance(e.args[0], ast.Name) and e.args[0].id in ("str", "int", "float", "round", "min", "max"):
+            return all(is_const_expr(a, depth + 1) for a in e.args[1:])      # a builtin applied to constants: an immutable callable
     return False
 
 
@@ -1597,7 +1599,7 @@ def normalize(project) -> List[str]:
     except OSError:
         return []
     renamed = recover_renamed_anchors(project)
-    from .normalize2 import simplify_defensive, recover_loops, hoist_lambda_calls, sink_loop_exit, unroll_search_loops, search_loops_to_any, fold_local_tables, dispatch_on_constant, accumulate_to_join, propagate_string_constants, unroll_index_loops, scalarise_local_lists, scalarise_records
+    from .normalize2 import simplify_defensive, recover_loops, hoist_lambda_calls, sink_loop_exit, unroll_search_loops, search_loops_to_any, fold_local_tables, dispatch_on_constant, accumulate_to_join, propagate_string_constants, unroll_index_loops, scalarise_local_lists, scalarise_records, fold_dict_building
 
     module_of = {id(fi.node): fi.module for fi in project.funcs.values()}
 
@@ -1618,6 +1620,8 @@ def normalize(project) -> List[str]:
             n += propagate_string_constants(fn)
             n += unroll_index_loops(fn)
             n += scalarise_local_lists(fn)
+            n += fold_dict_building(fn)
+            n += inline_function_values(fn)
             if id(fn) in module_of:
                 n += scalarise_records(fn, module_of[id(fn)].top_assigns)
             total += n
